@@ -100,6 +100,54 @@ def shrink_rules(ctx, rules, H, fails, maxbits=12):
                     break
             if changed:
                 break
+    return shrink_formulas(cur, fails)
+
+
+def is_fml(x):
+    return isinstance(x, (tuple, list)) and len(x) > 0 and isinstance(x[0], str)
+
+
+def shrinks(f):
+    """formulas obtained from f by replacing one sub-formula by one of its own formula children (smaller candidates first)"""
+    f = tuple(f)
+    kids = [(i, x) for i, x in enumerate(f[1:], 1) if is_fml(x)]
+    if f[0] in ('atom', 'patom'):
+        return
+    for i, x in kids:
+        yield tuple(x)
+    for i, x in kids:
+        for y in shrinks(x):
+            yield f[:i] + (y,) + f[i + 1:]
+
+
+def shrink_formulas(rules, fails, budget=150):
+    cur = [dict(r) for r in rules]
+    changed = True
+    while changed and budget > 0:
+        changed = False
+        for i, r in enumerate(cur):
+            cands = []
+            if r['head'][0] == 'tel':
+                for g in shrinks(r['head'][1]):
+                    r2 = dict(r)
+                    r2['head'] = ('tel', g)
+                    cands.append(r2)
+            for j, (sg, a) in enumerate(r['body']):
+                if a[0] in ('tel', 'del') and a[0] == 'tel':
+                    for g in shrinks(a[1]):
+                        r2 = dict(r)
+                        r2['body'] = r['body'][:j] + [(sg, ('tel', g))] + r['body'][j + 1:]
+                        cands.append(r2)
+            for r2 in cands:
+                budget -= 1
+                if budget <= 0:
+                    break
+                cand = cur[:i] + [r2] + cur[i + 1:]
+                if fails(cand):
+                    cur, changed = cand, True
+                    break
+            if changed:
+                break
     return cur
 
 
